@@ -98,6 +98,26 @@ def run_map_case(case):
         if got != want:
             msgs.append("axis labels %s, the mode %s names %s" %
                         (got, mode, want))
+        # the tick labels must be in the labelled unit: the data stays in
+        # metres, a formatter converts (2 m -> '2000' for mm)
+        factor = {"m": 1.0, "mm": 1e-3, "cm": 1e-2, "km": 1e3}[case["unit"]]
+        axes_ = [ax.xaxis, ax.yaxis] + ([ax.zaxis] if three else [])
+        for axis in (axes_ if case["unit"] != "m" else []):
+            fmt_ = axis.get_major_formatter()
+            for v in (2.0, 250.0):
+                axis.set_major_formatter(fmt_)
+                lab = fmt_(v, 0)
+                try:
+                    shown = float(str(lab).replace("\u2212", "-"))
+                except ValueError:
+                    msgs.append("tick label %r is not a number" % lab)
+                    break
+                if case["unit"] != "m" and abs(shown - v / factor) > \
+                        1e-6 * abs(v / factor):
+                    msgs.append("tick label for %g m is %r although the "
+                                "axis is labelled in %s" %
+                                (v, lab, case["unit"]))
+                    break
         # --- trajectory line + start/end markers
         plot.traj(ax, pm, a, plot_start_end_markers=case["markers"])
         if len(ax.lines) != 1:
@@ -218,10 +238,30 @@ def run_series_case(case):
                                 (axarr[i].get_ylabel(), want))
             if axarr[2].get_xlabel() != ("$t$ (s)" if timed else "index"):
                 msgs.append("traj_xyz: xlabel %r" % axarr[2].get_xlabel())
+            if case["unit"] != "m" and rep == 0:
+                factor = {"mm": 1e-3, "cm": 1e-2, "km": 1e3}[case["unit"]]
+                for i in range(3):
+                    lab = axarr[i].yaxis.get_major_formatter()(2.0, 0)
+                    try:
+                        ok = abs(float(str(lab).replace("\u2212", "-")) -
+                                 2.0 / factor) <= 1e-6 * 2.0 / factor
+                    except ValueError:
+                        ok = False
+                    if not ok:
+                        msgs.append("traj_xyz: tick label for 2 m is %r on "
+                                    "an axis labelled in %s" %
+                                    (lab, case["unit"]))
             fig, axarr = plt.subplots(3)
             figs.append(fig)
-            plot.traj_rpy(axarr, t, start_timestamp=start)
-            ang = np.array([tr.euler_from_matrix(geom.pose(R, p), "sxyz")
+            from evo.tools.settings import SETTINGS
+            seq = case.get("euler", "sxyz")
+            old_seq = SETTINGS.euler_angle_sequence
+            dict.__setitem__(SETTINGS, "euler_angle_sequence", seq)
+            try:
+                plot.traj_rpy(axarr, t, start_timestamp=start)
+            finally:
+                dict.__setitem__(SETTINGS, "euler_angle_sequence", old_seq)
+            ang = np.array([tr.euler_from_matrix(geom.pose(R, p), seq)
                             for R, p in zip(Rs, ps)])
             for i, name in enumerate(("roll", "pitch", "yaw")):
                 ln = axarr[i].lines
@@ -366,7 +406,9 @@ def all_cases(thorough):
                     for storage in ("quat", "se3"):
                         cases.append(("series", {"n": n, "timed": timed,
                                                  "start": start, "unit": unit,
-                                                 "storage": storage}))
+                                                 "storage": storage,
+                                                 "euler": ("sxyz", "szyx")[
+                                                     len(cases) % 2]}))
     return cases
 
 
